@@ -36,6 +36,32 @@ type c02gen struct {
 	mapWay int             // 0 alias (default), 1 field name, 2 both
 	root   *Ty
 	sdesc  map[*Ty]*thrift.StructDescriptor
+	// typedefs: every use of a type in the IDL may go through a chain of typedefs (the model gets the resolved type)
+	pTypedef int
+	typedefs []string
+	tdN      int
+}
+
+// the name under which a type is used at one place of the IDL: its own spelling, or a (chain of) typedef(s) for it
+func (c *c02gen) tname(t *Ty) string {
+	var base string
+	switch t.K {
+	case thrift.LIST:
+		base = "list<" + c.tname(t.Elem) + ">"
+	case thrift.SET:
+		base = "set<" + c.tname(t.Elem) + ">"
+	case thrift.MAP:
+		base = "map<" + c.tname(t.Key) + "," + c.tname(t.Elem) + ">"
+	default:
+		base = t.idlName()
+	}
+	for c.r.chance(c.pTypedef) {
+		c.tdN++
+		name := fmt.Sprintf("Td%d", c.tdN)
+		c.typedefs = append(c.typedefs, "typedef "+base+" "+name+"\n")
+		base = name
+	}
+	return base
 }
 
 // number of struct-level key lookups of the document that run into the native trie's off-by-one bound test (finding 207)
@@ -59,6 +85,9 @@ func newC02gen(r *rng) *c02gen {
 	c.mapWay = r.intn(3)
 	if r.chance(50) {
 		c.mapWay = 0
+	}
+	if r.chance(60) {
+		c.pTypedef = 25
 	}
 	st := c.g.genStruct(0)
 	c.root = st
@@ -118,7 +147,7 @@ func newC02gen(r *rng) *c02gen {
 
 func (c *c02gen) idl() string {
 	var sb strings.Builder
-	sb.WriteString("namespace go verif\n")
+	c.typedefs, c.tdN = nil, 0
 	for i := len(c.g.structs) - 1; i >= 0; i-- {
 		s := c.g.structs[i]
 		sb.WriteString("struct " + s.Name + " {\n")
@@ -126,13 +155,16 @@ func (c *c02gen) idl() string {
 			req := ""
 			if f.Req == 2 {
 				req = "optional "
+			} else if f.Req == 1 {
+				req = "required "
 			}
-			sb.WriteString(fmt.Sprintf("  %d: %s%s %s%s\n", f.ID, req, f.T.idlName(), f.Name, c.annot[f]))
+			sb.WriteString(fmt.Sprintf("  %d: %s%s %s%s\n", f.ID, req, c.tname(f.T), f.Name, c.annot[f]))
 		}
 		sb.WriteString("}\n")
 	}
-	sb.WriteString("service Svc { " + c.root.idlName() + " M(1: " + c.root.idlName() + " req) }\n")
-	return sb.String()
+	rn := c.tname(c.root)
+	sb.WriteString("service Svc { " + rn + " M(1: " + rn + " req) }\n")
+	return "namespace go verif\n" + strings.Join(c.typedefs, "") + sb.String()
 }
 
 // the keys the harness predicts must be the ones the IDL parser derived (a harness bug must not look like a finding)
@@ -997,6 +1029,26 @@ func c02PanicClass(msg string) int {
 	return 9
 }
 
+// a converter for opts: either fresh, or one with a HISTORY — built with other options, used once, then SetOptions(opts).
+// The result must not depend on the history (every flag is cleared / set by SetOptions).
+func c02Conv(r *rng, opts conv.Options, desc *thrift.TypeDescriptor, warm []byte) j2t.BinaryConv {
+	if !r.chance(40) {
+		return j2t.NewBinaryConv(opts)
+	}
+	b := r.intn(128)
+	if r.chance(30) {
+		b = 127 // everything on, then reset
+	}
+	o1 := conv.Options{DisallowUnknownField: b&1 != 0, String2Int64: b&2 != 0, NoBase64Binary: b&4 != 0, EnableValueMapping: b&8 != 0,
+		WriteDefaultField: b&16 != 0, WriteRequireField: b&32 != 0, WriteOptionalField: b&64 != 0}
+	cv := j2t.NewBinaryConv(o1)
+	if r.chance(70) {
+		noPanic(func() { cv.Do(context.Background(), desc, warm) })
+	}
+	cv.SetOptions(opts)
+	return cv
+}
+
 // Do, then DoInto over initial capacities / dirty prefixes; distinct (prefix, error class, output) observations only
 func c02Run(r *rng, cv *j2t.BinaryConv, desc *thrift.TypeDescriptor, doc []byte, full bool) []c02res {
 	r = r.fork() // the sweep's own draws (their number depends on what the implementation did, e.g. a recovered fault) must not shift the case stream
@@ -1089,6 +1141,9 @@ func genC02(r *rng, n int) {
 	for k := 0; k < 2+n/600; k++ {
 		docs += genC02Special(r, 5)
 	}
+	for k := 0; k < 2+n/300; k++ {
+		docs += genC02Special(r, 6)
+	}
 	for k := 0; k < 1+n/700; k++ {
 		docs += genC02Special(r, 0)
 	}
@@ -1121,7 +1176,6 @@ func genC02(r *rng, n int) {
 				optBits |= 8 // EnableValueMapping
 			}
 			opts := conv.Options{DisallowUnknownField: optBits&1 != 0, String2Int64: optBits&2 != 0, NoBase64Binary: optBits&4 != 0, EnableValueMapping: optBits&8 != 0}
-			cv := j2t.NewBinaryConv(opts)
 			val := c.value(c.root, 0)
 			p := &c02printer{c: c, r: r.fork(), opts: opts, vmOn: optBits&8 != 0, mutateAt: -1}
 			switch r.intn(5) {
@@ -1154,6 +1208,7 @@ func genC02(r *rng, n int) {
 				p.sb = append(p.sb, []string{"", " ", "x", "}", ",1", "\x00"}[r.intn(6)]...) // trailing bytes after the top-level value are never read
 			}
 			doc := p.sb
+			cv := c02Conv(r, opts, desc, doc)
 			if dbg := os.Getenv("C02_DEBUG"); dbg != "" {
 				os.WriteFile(dbg+".idl", []byte(idl+fmt.Sprintf("// mapway %d opts %d\n", c.mapWay, optBits)), 0644)
 				os.WriteFile(dbg+".json", doc, 0644)
